@@ -70,14 +70,13 @@ Proof.
   destruct t; cbn [imin imax] in *; Z.to_euclidean_division_equations; nia.
 Qed.
 
-(* the fixed code: CheckedArithmetic *)
+(* the fixed code: checked_add / checked_sub / checked_mul + expect, plain `/`, wrapping_rem *)
 Lemma fixed_int_ok : forall t o x y,
   in_range t x = true -> in_range t y = true ->
   int_meets (int_spec t o x y) (fixed_int t o x y).
 Proof.
   intros t o x y Hx Hy. unfold int_spec, fixed_int.
-  destruct o; cbn [is_divlike andb exact_Z];
-    unfold exact_add, exact_sub, exact_mul, exact_div, exact_rem, checked.
+  destruct o; cbn [is_divlike andb exact_Z]; unfold checked, expect, rust_div, wrapping_rem.
   1-3: match goal with |- context [in_range ?tt ?e] => destruct (in_range tt e) end; cbn; auto.
   - destruct (Z.eqb_spec y 0) as [->|Hy0]; cbn; auto.
     rewrite (min_by_m1_spec t x y Hx Hy Hy0).
@@ -305,7 +304,7 @@ Qed.
 Theorem neg_fixed : forall a, wf a -> meets (spec_neg a) (negate Fixed a).
 Proof.
   intros a Ha. destruct a as [x|x|x|x|x]; unfold spec_neg, negate, neg_int, checked, repr;
-  cbn [ity_of mk meets is_failure lift or_bail]; auto.
+  cbn [ity_of mk meets is_failure lift expect]; auto.
   - destruct (in_range I32 (- x)); cbn; auto.
   - destruct (in_range I128 (- x)); cbn; auto.
 Qed.
@@ -359,7 +358,7 @@ Qed.
 
 (* ================================================================ the ORIGINAL code (before the fix)
    What the unfixed tree does, and exactly where it violates the specification (reproduced on the real
-   binaries; repaired by fixes/num-checked-arithmetic.diff):
+   binaries; repaired by the three fixes/num-*.diff, one per class):
      K1 float_by_byte_zero : `float / byte 0`, `float % byte 0` yield inf / NaN (zero guard misses Byte(0))
      K2 rem_min_by_m1      : `MIN % -1` panics although the exact remainder 0 is representable
      K3 overflows          : in a release build an overflowing + - * (and unary minus of MIN) wraps around *)
